@@ -3,7 +3,7 @@ import os, json, glob
 import ps, iterlib, oracle
 
 LEVEL = "proof"
-THEOREMS = ["C02_prev_calls_spec", "C02_every_call_returns", "pg_primes_spec", "smallPrimes_ok", "primePi_ok"]
+THEOREMS = ["C02_prev_calls_spec", "C02_every_call_returns", "pg_primes_spec", "smallPrimes_ok", "primePi_ok", "C02_prev_calls_model_kernel"]
 ASSUMPTIONS = [
     "erat_spec (the sieve proper is exact above 720): visible hypothesis of C02_prev_calls_spec, exercised by the correspondence",
     "getPrevDist / maxPrimeGap / stop_hint universally quantified; primeCountUpper only sizes the buffer (capacity is not part of the model)",
